@@ -21,7 +21,7 @@ CONSTANTS Deviations,   \* subset of {"noRestore", "addsKey", "bakeUnits", "stal
 
 (* caller-owned objects: content is constant, only the parts above change.
    kind "dict" is a plain dict passed to expand(), "Config" a Config instance created once and reused *)
-Objs == {"m1", "m2", "m3", "m4", "m5", "m6", "s1", "s2", "s3", "s4", "s5", "s6", "s7", "s8"}
+Objs == {"m1", "m2", "m3", "m4", "m5", "m6", "m7", "m8", "s1", "s2", "s3", "s4", "s5", "s6", "s7", "s8", "s9", "s10"}
 Content ==
   [ m1 |-> [type |-> "markup", kind |-> "dict",   text |-> "T",      table |-> "MS1", opt |-> "A", cache |-> "none", bem |-> FALSE, scope |-> "none"],
     m2 |-> [type |-> "markup", kind |-> "dict",   text |-> "absent", table |-> "MS0", opt |-> "A", cache |-> "none", bem |-> TRUE , scope |-> "none"],
@@ -29,6 +29,8 @@ Content ==
     m4 |-> [type |-> "markup", kind |-> "dict",   text |-> "absent", table |-> "MS0", opt |-> "A", cache |-> "none", bem |-> FALSE, scope |-> "none"],
     m5 |-> [type |-> "markup", kind |-> "dict",   text |-> "T",      table |-> "MS0", opt |-> "B", cache |-> "none", bem |-> TRUE , scope |-> "none"],
     m6 |-> [type |-> "markup", kind |-> "dict",   text |-> "absent", table |-> "MS0", opt |-> "C", cache |-> "none", bem |-> FALSE, scope |-> "none"],
+    m7 |-> [type |-> "markup", kind |-> "dict",   text |-> "absent", table |-> "MS0", opt |-> "D", cache |-> "none", bem |-> FALSE, scope |-> "none"],    \* jsx with a dict-valued option (markup.attributes)
+    m8 |-> [type |-> "markup", kind |-> "dict",   text |-> "absent", table |-> "MS0", opt |-> "E", cache |-> "none", bem |-> FALSE, scope |-> "none"],    \* jsx without it
     s1 |-> [type |-> "css",    kind |-> "dict",   text |-> "absent", table |-> "S0",  opt |-> "A", cache |-> "k1",   bem |-> FALSE, scope |-> "none"],
     s2 |-> [type |-> "css",    kind |-> "dict",   text |-> "absent", table |-> "S0",  opt |-> "B", cache |-> "k1",   bem |-> FALSE, scope |-> "none"],
     s3 |-> [type |-> "css",    kind |-> "dict",   text |-> "absent", table |-> "S1",  opt |-> "A", cache |-> "k1",   bem |-> FALSE, scope |-> "none"],
@@ -36,10 +38,12 @@ Content ==
     s5 |-> [type |-> "css",    kind |-> "Config", text |-> "absent", table |-> "S0",  opt |-> "A", cache |-> "k2",   bem |-> FALSE, scope |-> "none"],
     s6 |-> [type |-> "css",    kind |-> "dict",   text |-> "absent", table |-> "S2",  opt |-> "B", cache |-> "k1",   bem |-> FALSE, scope |-> "none"],
     s7 |-> [type |-> "css",    kind |-> "dict",   text |-> "absent", table |-> "S0",  opt |-> "A", cache |-> "k1",   bem |-> FALSE, scope |-> "section"],
-    s8 |-> [type |-> "css",    kind |-> "dict",   text |-> "absent", table |-> "S0",  opt |-> "A", cache |-> "k1",   bem |-> FALSE, scope |-> "property"] ]
+    s8 |-> [type |-> "css",    kind |-> "dict",   text |-> "absent", table |-> "S0",  opt |-> "A", cache |-> "k1",   bem |-> FALSE, scope |-> "property"],
+    s9 |-> [type |-> "css",    kind |-> "dict",   text |-> "absent", table |-> "S2",  opt |-> "D", cache |-> "none", bem |-> FALSE, scope |-> "none"],     \* a dict-valued option (stylesheet.unitAliases)
+    s10 |-> [type |-> "css",   kind |-> "dict",   text |-> "absent", table |-> "S3",  opt |-> "B", cache |-> "k1",   bem |-> FALSE, scope |-> "none"] ]    \* S3: a table that cannot be converted - every call raises
 Caches == {"k1", "k2"}
 MarkupAbbrs == {"ok", "wrap", "badparse", "badsnippet", "bem", "var"}          \* "var": a snippet that reads a variable of the configuration      \* "badsnippet" fails while snippets are resolved iff the table is MS1
-CssAbbrs == {"num", "tab", "plain", "raw", "fnarg", "fnbare", "badparse"}                     \* "num": a snippet supplies a number that takes the caller's unit; "raw": a raw snippet (section scope); "fnarg" / "fnbare": a function keyword of a snippet with and without arguments
+CssAbbrs == {"num", "tab", "plain", "raw", "fnarg", "fnbare", "alias", "badparse"}                     \* "num": a snippet supplies a number that takes the caller's unit; "raw": a raw snippet (section scope); "fnarg" / "fnbare": a function keyword of a snippet with and without arguments
 
 VARIABLES userText, cache, live, pc, cur, seenText, results, ncalls
 vars == <<userText, cache, live, pc, cur, seenText, results, ncalls>>
@@ -86,7 +90,9 @@ RestoreText == /\ pc = "transformed"
 
 (* -------------------------------------------------------- stylesheet.parse() *)
 CacheLookup == /\ pc = "begun" /\ C.type = "css"
-               /\ IF cur[2] = "badparse"
+               /\ IF C.table = "S3"
+                  THEN Done(PERR) /\ UNCHANGED <<userText, cache, live, seenText, ncalls>>          \* convert_snippets() raises before the cache is written
+                  ELSE IF cur[2] = "badparse"
                   THEN \* snippets are converted (and cached) before the abbreviation is parsed
                        /\ cache' = IF C.cache # "none" /\ (cache[C.cache].table = "none" \/ (~Dev("staleTable") /\ cache[C.cache].table # C.table))
                                    THEN [cache EXCEPT ![C.cache] = [table |-> C.table, baked |-> "none", scope |-> C.scope]] ELSE cache
@@ -110,7 +116,7 @@ Spec == Init /\ [][Next]_vars
 
 (* ------------------------------------------------------------- the property *)
 \* what a call returns in a fresh interpreter: a function of the object's constant content and the abbreviation only
-Pure(c, ab) == IF ab = "badparse" \/ (ab = "badsnippet" /\ Content[c].table = "MS1") THEN PERR
+Pure(c, ab) == IF ab = "badparse" \/ (ab = "badsnippet" /\ Content[c].table = "MS1") \/ Content[c].table = "S3" THEN PERR
                ELSE IF Content[c].type = "markup"
                     THEN [kind |-> "markup", text |-> Content[c].text, table |-> Content[c].table, opt |-> Content[c].opt, scope |-> "none"]
                     ELSE [kind |-> "css", text |-> "absent", table |-> Content[c].table, opt |-> Content[c].opt, scope |-> Content[c].scope]
